@@ -480,18 +480,24 @@ class Evolver:
             self.edits.append({"edit": "E3-new-enum", "name": name, "base": "string", "values": [v for _, v in vals]})
             return self.e_new_property(force="ref-enum")
         if focus == "and-registration-options":
-            for first in (True, False):
+            # (requests and notifications, with and without typeName)
+            for is_req, typed, first in ((True, True, True), (True, False, False), (False, True, False), (False, False, True)):
                 self.counter += 1
                 opts = self.pick([s for s in self.base_structs if s.endswith("Options") and not s.endswith("RegistrationOptions")] or self.base_structs)
                 items = [{"kind": "reference", "name": "TextDocumentRegistrationOptions"}, {"kind": "reference", "name": opts}]
                 if not any(s["name"] == "TextDocumentRegistrationOptions" for s in self.doc["structures"]):
                     return
-                msg = {"method": f"vf/andOptions{self.counter}", "messageDirection": "clientToServer", "typeName": self.fresh_type_name("Vm") + "Request",
-                       "result": {"kind": "base", "name": "null"}, "params": self._struct_ref(),
+                msg = {"method": f"vf/andOptions{self.counter}", "messageDirection": "clientToServer", "params": self._struct_ref(),
                        "registrationOptions": {"kind": "and", "items": items if first else items[::-1]}}
-                self.doc["requests"].append(msg)
-                self.edits.append({"edit": "E5-new-request", "method": msg["method"], "typeName": msg["typeName"], "params": msg["params"],
-                                   "result": msg["result"], "registrationOptions": msg["registrationOptions"]})
+                if typed:
+                    msg["typeName"] = self.fresh_type_name("Vm") + ("Request" if is_req else "Notification")
+                if is_req:
+                    msg["result"] = {"kind": "base", "name": "null"}
+                    self.doc["requests"].append(msg)
+                else:
+                    self.doc["notifications"].append(msg)
+                self.edits.append({"edit": "E5-new-request" if is_req else "E5-new-notification", "method": msg["method"], "typeName": msg.get("typeName"),
+                                   "params": msg["params"], "result": msg.get("result"), "registrationOptions": msg["registrationOptions"]})
             return
         if focus == "deep-mixin":
             b, mname, s = self.fresh_type_name("VfDb"), self.fresh_type_name("VfDx"), self.fresh_type_name("VfDy")
